@@ -103,6 +103,16 @@ def apply_op(cp, op: str, gname: str, observed):
         for rule in HIST["rules"]:
             for t in HIST_INPUTS:
                 pestenv.run_parse(target, rule, t)
+    elif op.startswith("passes:"):
+        # another grammar built with a custom pass list (one pass alone, or the default list without one pass)
+        names = famcheck.PASSES
+        spec = op.split(":", 1)[1]
+        idx = [int(spec[1:])] if spec[0] == "o" else [i for i in range(len(names)) if i != int(spec[1:])]
+        by_name = {st.name: st for st in cp.pest.DEFAULT_OPTIMIZER_PASSES}
+        for text, rule, inputs in ((OTHER, "o", ["a1-b\n", "!"]), (NAMESAKE, "r", ["abX,s1", "ab"]), (g, "r", [ok_in, bad_in])):
+            p = cp.parser(text, passes=[by_name[names[i]] for i in idx])
+            for t in inputs:
+                pestenv.run_parse(p, rule, t)
     elif op == "other_parse":
         p = cp.parser(OTHER, optimized=True)
         pestenv.run_parse(p, "o", "a1-b\n")
@@ -285,7 +295,7 @@ def main(tier: str, seed: int, args) -> int:
         print("HARNESS-ERROR: canary (shared built-in rewritten by another parser) not detected")
         return core.EXIT_HARNESS
     regions = known.regions_for("C15")
-    hists = [[]] + [[o] for o in OPS]
+    hists = [[]] + [[o] for o in OPS] + [[f"passes:{kind}{i}"] for kind in "ox" for i in range(5)]
     if tier == "quick":
         hists += [list(h) for h in itertools.product(["mk_same_opt", "mk_other_opt", "gen_other_opt", "use_fail", "other_parse", "sibling_parse", "namesake_opt"], repeat=2)]
     else:
@@ -329,7 +339,7 @@ def main(tier: str, seed: int, args) -> int:
         assumptions=[
             "SEQUENTIAL histories only: 'parse() calls running at the same time on other threads' is not covered by this or any other check (no symbolic scheduler for CPython exists in the sandbox; a threaded run would be a sample, not a solver verdict)",
             "two separately imported copies of the pest package stand for 'with' and 'without' the history; the history's own parse calls use one accepted and one rejected concrete input",
-            "histories: all of length <= 2 over the listed operations (quick: a 5-operation subset for length 2), thorough adds 150 seeded histories of length 3",
+            "histories: all of length <= 2 over the listed operations (quick: a 7-operation subset for length 2), ten custom pass lists (each pass alone, the default list without one pass) as length-1 histories, thorough adds 150 seeded histories of length 3",
         ],
         extra_cov={"histories": len(hists), "not_claimed": "thread schedules"},
         functions=["pest.parser.Parser.__init__/from_grammar/parse/generate", "pest.grammar.optimizer.Optimizer.optimize/_optimize_skip_rule", "pest.grammar.optimizers.*", "pest.grammar.rules.{ascii,unicode,special} (shared rule objects)", "pest.state.ParserState.fail"],
